@@ -11,6 +11,7 @@ from .engine import Raised, zt, wrap_const, Out
 
 be = z3.Function('be', IntS, IntS, BytesS)           # be(width, value) -> bytes
 unbe = z3.Function('unbe', BytesS, IntS)             # big-endian decode
+le = z3.Function('le', IntS, IntS, BytesS)           # le(width, value) -> bytes, little-endian (int.to_bytes(w, 'little'))
 
 
 def be_term(s, width, v):
@@ -498,6 +499,11 @@ def b_urandom(ex, s, args, kw, node):
 def b_from_bytes(ex, s, args, kw, node):
     b = ex.deref(s, args[0])
     order = args[1] if len(args) > 1 else kw.get('byteorder')
+    if order is not None and concrete_str(order) == 'little' and kw.get('signed') is None:
+        # little-endian: an uninterpreted non-negative value (0 for the empty string); deliberately unrelated to be/unbe
+        f = z3.Function('unle', BytesS, IntS)
+        s.assume(z3.And(f(b.z) >= 0, z3.Implies(z3.Length(b.z) == 0, f(b.z) == 0)))
+        return [(s, VInt(f(b.z)))]
     if order is None or concrete_str(order) != 'big':
         raise Unsupported('int.from_bytes other than big-endian')
     sg = kw.get('signed')
@@ -795,6 +801,25 @@ def by_to_bytes(ex, s, recv, r, args, kw, node):
                     out.append((s2, VBytes(ube(n, v))))
                 else:
                     out.append(_raise(s2, 'OverflowError'))
+        return out
+    if w is not None and w >= 1 and order == 'little' and not kw and isinstance(r, VInt):
+        # v.to_bytes(w, 'little'), fixed width, unsigned: OverflowError unless 0 <= v < 256**w; byte i = (v // 256**i) % 256
+        # (spec function le(width, v); for a one-byte result both byte orders coincide)
+        out = []
+        for s2, ok in ex.branch(s, z3.And(r.z >= 0, r.z < 256 ** w), node):
+            if not ok:
+                out.append(_raise(s2, 'OverflowError'))
+                continue
+            cv = concrete_int(r)
+            if cv is not None:
+                out.append((s2, VBytes(cv.to_bytes(w, 'little'))))
+                continue
+            t = le(z3.IntVal(w), r.z)
+            s2.assume(z3.Length(t) == w)
+            s2.assume(t[0] == r.z % 256)
+            digits = [z3.Unit((r.z / (256 ** i)) % 256) for i in range(w)]
+            add_def(s2, t == (digits[0] if w == 1 else z3.Concat(*digits)))
+            out.append((s2, VBytes(t)))
         return out
     if w is None or order != 'big' or kw:
         raise Unsupported('to_bytes other than fixed-width unsigned big-endian')
